@@ -72,6 +72,23 @@ impl<'a> ZoneHydrator<'a> {
             }
         }
 
+        // Some index strategies hand back zones without UID metadata. When other zones of the same
+        // query carry one, the UID-less zones still belong to the queried event type and must be
+        // hydrated too; without values every row of such a zone is dropped.
+        if !zones_by_uid.is_empty() {
+            let missing: Vec<usize> = candidate_zones
+                .iter()
+                .enumerate()
+                .filter(|(_, zone)| zone.uid().is_none())
+                .map(|(idx, _)| idx)
+                .collect();
+            if !missing.is_empty() {
+                if let Some(uid) = self.plan.event_type_uid().await {
+                    zones_by_uid.entry(uid).or_default().extend(missing);
+                }
+            }
+        }
+
         if zones_by_uid.is_empty() {
             if matches!(self.plan.event_scope(), EventScope::Wildcard { .. })
                 && tracing::enabled!(tracing::Level::WARN)
